@@ -90,10 +90,20 @@ def gen(rng, tier):
       key = ('/'.join(sc), full, param)
       k = rng.random()
       uid[0] += 1
-      if k < 0.08:
+      prev = [o['val'].get('lit') for o in ops
+              if o['op'] == 'bind' and o.get('full') == full and
+              o.get('param') == param and o.get('scope') == '/'.join(sc)]
+      if prev and type(prev[-1]) in (int, float, bool) and prev[-1] in (0, 1) \
+          and rng.random() < 0.6:
+        # re-bound to a value that compares equal but is written differently
+        # (1 -> True -> 1.0): the record shows the latest
+        val = {'lit': rng.choice([x for x in ([1, True, 1.0] if prev[-1] == 1
+                                              else [0, False, 0.0])
+                                  if type(x) is not type(prev[-1])])}
+      elif k < 0.08:
         # plain scalars that compare (and hash) equal to the enum member used
         # as a non-literal value elsewhere
-        val = {'lit': rng.choice([1, 1.0, True, 2])}
+        val = {'lit': rng.choice([1, 1.0, True, 2, 0, False])}
       elif k < 0.55 or spec['name'].startswith('prod'):
         val = {'lit': c01._bound_value(rng, uid)}  # pylint: disable=protected-access
       elif k < 0.72:
